@@ -469,6 +469,22 @@ def r7_base_through_resolver(ctx):
         okr = bool(r0) and all(o.kind == "param" and o.detail == 1 and o.fpath[-1:] == ("inner",) for o in r0)
         (out.append(holds("C06.R7", "open_base:from-own-root", t.where(), "lookup starts at the handle's own procfs root fd")) if okr else
          out.append(violated("C06.R7", "open_base:from-own-root", t.where(), "base lookup does not start from the handle's root fd: %r" % r0)))
+    # the thread-self candidate is probed inside the handle's own procfs, never through the host's /proc:
+    # into_path(None) (which consults /proc of the mount namespace) is for diagnostics only
+    from ..variants import Variants
+    V = Variants(F)
+    for b in F.fn_bodies():
+        for t in b.calls("procfs::ProcfsBase::into_path"):
+            toks = V.of_operand(b, t.bb, len(b.blocks[t.bb].stmts), t.args[1])
+            fk = fn_key(b)
+            key = "%s:into_path-root" % fk
+            if toks == {("variant", "Some", 1)}:
+                out.append(holds("C06.R7", key, t.where(), "base candidates are probed relative to a procfs root fd"))
+            elif fk == "<Fd as utils::fd::FdExt>::as_unsafe_path_unchecked":
+                out.append(holds("C06.R7", key, t.where(), "host /proc consulted for diagnostics only (FrozenFd)"))
+            else:
+                out.append(violated("C06.R7", key, t.where(),
+                                    "the procfs base path is chosen by probing the host's /proc (into_path without the handle's root: %s): an over-mounted /proc decides which directory of the private procfs is used" % sorted(toks)))
     n = 0
     for b in F.fn_bodies():
         if b.file != "src/procfs.rs" or b is ob:
